@@ -110,6 +110,9 @@ import ffcx.codegeneration.jit as jit  # noqa: E402
 
 
 def make_form(name):
+    if name == "mass_p1_diag":  # the same form requested with part='diagonal' (options differ, not the form)
+        form, _, x, _ = make_form("mass_p1")
+        return form, (3,), x, 0.25
     if name == "mass_p1":
         el = basix.ufl.element("Lagrange", "triangle", 1)
         dom = ufl.Mesh(basix.ufl.element("Lagrange", "triangle", 1, shape=(2,)))
@@ -150,7 +153,10 @@ for rq in job["requests"]:
         ffcx.compiler.compile_ufl_objects = boom
     t0 = time.time()
     try:
-        objs, mod, code = jit.compile_forms([form], options=dict(rq.get("options") or {}), cache_dir=cache,
+        ropts = dict(rq.get("options") or {})
+        if rq["form"].endswith("_diag"):
+            ropts["part"] = "diagonal"
+        objs, mod, code = jit.compile_forms([form], options=ropts, cache_dir=cache,
                                             cffi_extra_compile_args=list(rq.get("cflags", ["-O0"])), timeout=int(rq.get("timeout", 50)))
         ffi = mod.ffi
         A = np.zeros(int(np.prod(shape)))
